@@ -7,6 +7,14 @@ mod functions;
 
 use idlc_codegen_c::types::{change_const_primitive, change_primitive};
 
+/// An in-class initialiser of a floating-point static member requires `constexpr`.
+const fn const_qualifier(primitive: idlc_mir::Primitive) -> &'static str {
+    match primitive {
+        idlc_mir::Primitive::Float32 | idlc_mir::Primitive::Float64 => "constexpr",
+        _ => "const",
+    }
+}
+
 pub fn emit_interface_impl(interface: &Interface) -> String {
     let ident = interface.ident.to_string();
 
@@ -27,7 +35,8 @@ pub fn emit_interface_impl(interface: &Interface) -> String {
             InterfaceNode::Const(c) => {
                 constants.push_str(&format!(
                     r#"
-    static const {} {} = {}({});"#,
+    static {} {} {} = {}({});"#,
+                    const_qualifier(c.r#type),
                     change_primitive(c.r#type),
                     c.ident,
                     change_const_primitive(c.r#type),
@@ -64,7 +73,8 @@ pub fn emit_interface_impl(interface: &Interface) -> String {
             InterfaceNode::Const(c) => {
                 constants.push_str(&format!(
                     r#"
-    static const {} {} = {}({});"#,
+    static {} {} {} = {}({});"#,
+                    const_qualifier(c.r#type),
                     change_primitive(c.r#type),
                     c.ident,
                     change_const_primitive(c.r#type),
